@@ -5,6 +5,8 @@
 Scans every *.rs under <repo>/src and <repo>/c-api/src, skipping
   * files named tests.rs and everything under a directory named `tests`,
   * `#[cfg(test)]` modules (`#[cfg(test)] mod x { ... }`) and single items carrying `#[cfg(test)]`,
+  * the verification hooks, which are not part of the product build (guard off = the build C18 speaks of):
+    files of modules declared `#[cfg(feature = "_verif_hooks")] mod x;` and single items carrying that attribute,
 and reports every item (not field, not local type mention) that is
   * `static NAME: T = ...`            kind `immutable`      if T has no interior mutability
                                       kind `interior`       if T mentions Cell/RefCell/Mutex/Atomic*/Once*/Lazy*...
@@ -26,6 +28,9 @@ STATIC_ITEM = re.compile(
     r"(?:^|[{};])\s*(?:pub(?:\s*\([^)]*\))?\s+)?(?:unsafe\s+)?static\s+(mut\s+)?(ref\s+)?([A-Za-z_][A-Za-z0-9_]*)\s*:\s*([^;]*)"
 )
 CFG_TEST = re.compile(r"#\s*\[\s*cfg\s*\(\s*test\s*\)\s*\]")
+HOOK_GUARD = "_verif_hooks"
+CFG_HOOK_RAW = re.compile(r'#\s*\[\s*cfg\s*\(\s*feature\s*=\s*"' + HOOK_GUARD + r'"\s*\)\s*\]')
+GATED_MOD_DECL = re.compile(r'#\s*\[\s*cfg\s*\(\s*feature\s*=\s*"' + HOOK_GUARD + r'"\s*\)\s*\]\s*(?:pub(?:\s*\([^)]*\))?\s+)?mod\s+([A-Za-z_][A-Za-z0-9_]*)\s*;')
 MOD_OPEN = re.compile(r"^\s*(?:pub(?:\s*\([^)]*\))?\s+)?mod\s+[A-Za-z_][A-Za-z0-9_]*\s*\{")
 MACRO_OPEN = re.compile(r"\b(thread_local|lazy_static)\s*!\s*[\{\(]")
 
@@ -88,7 +93,13 @@ def strip_comments_and_strings(src):
 
 def scan_file(path):
     """Yield (kind, name, line) for every global-state item of one file."""
-    src = strip_comments_and_strings(open(path, encoding="utf-8").read())
+    raw = open(path, encoding="utf-8").read()
+    src = strip_comments_and_strings(raw)
+    # the hook guard is a string literal: blank the whole attribute into the `#[cfg(test)]` shape
+    for m in CFG_HOOK_RAW.finditer(raw):
+        if src[m.start()] == "#":  # not inside a comment or string
+            att = "#[cfg(test)]"
+            src = src[: m.start()] + att + " " * (len(m.group(0)) - len(att)) + src[m.end():]
     lines = src.split("\n")
     items = []
     depth = 0
@@ -148,16 +159,37 @@ def scan_file(path):
     return items
 
 
+def gated_module_paths(root):
+    """Paths (files / directories) of modules declared under the hook guard anywhere in the tree."""
+    skip = set()
+    for dirpath, _, filenames in os.walk(root):
+        for fn in filenames:
+            if not fn.endswith(".rs"):
+                continue
+            p = os.path.join(dirpath, fn)
+            raw = open(p, encoding="utf-8").read()
+            for m in GATED_MOD_DECL.finditer(raw):
+                base = dirpath if fn in ("lib.rs", "mod.rs", "main.rs") else os.path.join(dirpath, fn[:-3])
+                skip.add(os.path.join(base, m.group(1) + ".rs"))
+                skip.add(os.path.join(base, m.group(1)))
+    return skip
+
+
 def scan_tree(root, repo):
     res = []
+    skip = gated_module_paths(root)
     for dirpath, dirnames, filenames in sorted(os.walk(root)):
         dirnames.sort()
         if "tests" in os.path.relpath(dirpath, root).split(os.sep):
+            continue
+        if any(dirpath == d or dirpath.startswith(d + os.sep) for d in skip):
             continue
         for fn in sorted(filenames):
             if not fn.endswith(".rs") or fn == "tests.rs":
                 continue
             p = os.path.join(dirpath, fn)
+            if p in skip:
+                continue
             rel = os.path.relpath(p, repo)
             for kind, name, ln in scan_file(p):
                 res.append((kind, name, ln, rel))
